@@ -6,11 +6,13 @@ Monitors (DESIGN.md section 3, C16); every one drives the real binary with batch
   fmt      strftime / strfntime, every documented %-code alone, composites, random concatenations
   parse    strptime / strpntime on model-made texts, %z offsets, fractional forms, strptime(strftime(t,f),f) == t
   local    *_local / sec2local* / nsec2local* / gmt2localtime / localtime2* with the zone as argument,
-           dense around every transition of 12 zones, gaps and overlaps
+           dense around every transition of 12 zones (table era, LMT era before it, footer-rule era after it), gaps and overlaps
   sel      --tz / TZ / ENV["TZ"] / argument select the zone (precedence), GMT functions unaffected
   dhms     sec2dhms fsec2dhms sec2hms fsec2hms and their inverses incl. negatives
   datediff spreadsheet DATEDIF model on the leap-day / month-end / year-end pool and random pairs
-  verb     sec2gmt / sec2gmtdate verbs vs functions vs calendar; non-numeric values unchanged
+  verb     sec2gmt / sec2gmtdate verbs vs functions vs calendar (ints, floats, float unit counts); non-numeric values unchanged
+  chain    2-3 time verbs (put / filter / sec2gmt / sec2gmtdate, each with formats and zones of its own) in one then-chain over
+           >= 3 record batches: every cell against the model, and under the race binary no data race inside Miller
   nonnum   functions whose help says "Leaves non-numbers as-is"
   doc      worked examples of `mlr help function <f>` and the self-contained blocks of reference-dsl-time.md
 """
@@ -27,7 +29,7 @@ from .. import run as R
 from ..harness import add_violation, bump, case_result
 from ..model import timeref as T
 
-BINARIES = ("mlr-verif",)
+BINARIES = ("mlr-verif", "mlr-race")
 LEVEL = "exploration"
 DOC_TIME = "/repo/docs/src/reference-dsl-time.md"
 G = 10 ** 9
@@ -261,6 +263,16 @@ $rt = gmt2sec(sec2gmt($t));
 '''
 
 
+def _fsig(x, mon, func, cul, nxt, lit, prev, piece, multi=False):
+    """signature of one wrong strftime conversion; for the abbreviated names also whether the text printed is the constant
+    Mon / Jan (the output class of C16-F4)"""
+    sig = dict(x, kind="format", monitor=mon, func=func, code=cul, next=nxt, lit=lit, prev=prev)
+    if cul in ("%a", "%b", "%h"):
+        k = "Mon" if cul == "%a" else "Jan"
+        sig["const"] = piece == k or (multi and piece.endswith(k))      # with other wrong pieces around, the cut before it is not unique
+    return sig
+
+
 def _cmp_text(res, mon, func, got, expected, argv, row, env=None, extra=None, what=None):
     """expected: a text or a collection of acceptable texts"""
     exp = [expected] if isinstance(expected, str) else list(expected)
@@ -282,6 +294,13 @@ def _cmp_num(res, mon, func, got, expected, argv, row, env=None, extra=None, tol
     g = _num(got)
     exps = expected if isinstance(expected, (list, tuple)) else [expected]
     if g is not None and any(abs(g - e) <= tol for e in exps):
+        # an instant that is a whole number of seconds / nanoseconds, obtained without any fractional input, is documented
+        # as an int (gmt2sec("2001-02-03T04:05:06Z") = 981173106, strptime(...) = 14400): the text must be that integer
+        if tol == 0 and all(Fraction(e).denominator == 1 for e in exps) and not re.fullmatch(r"-?\d+", str(got)):
+            sig = {"kind": "int-text", "monitor": mon, "func": func}
+            add_violation(res, sig, f"{func}: the value {got!r} is right but is not printed as the integer {int(g)}",
+                          _detail(argv, row, env, expected=[str(e) for e in exps], got=got, func=func))
+            return False
         return True
     sig = {"kind": "parse", "monitor": mon, "func": func}
     if extra:
@@ -434,8 +453,9 @@ def fmt_case(case):
                 sc = [sum(1 for _, p_ in T.strftime_pieces(fmt, bs[j]) if p_ in gs) for j in range(len(bs))]
                 top = [j for j in range(len(bs)) if sc[j] == max(sc)]
                 k = top[0] if len(top) == 1 else min(top, key=lambda j: (len(T.culprits(fmt, bs[j], gs)), j))
-            for cul, nxt, lit, prev in T.culprits(fmt, bs[k], gs):
-                add_violation(res, dict(x, kind="format", monitor="fmt", func=func, code=cul, next=nxt, lit=lit, prev=prev),
+            culs = T.culprits_x(fmt, bs[k], gs)
+            for cul, nxt, lit, prev, pc_ in culs:
+                add_violation(res, _fsig(x, "fmt", func, cul, nxt, lit, prev, pc_, len(culs) > 1),
                               f"{func}({row.get('ns') if func == 'strfntime' else (row['f'] if 'float' in func else t)}, {fmt!r}) = {got!r}, expected {exps[k]!r} (wrong conversion: {cul})",
                               _detail(argv, row, expected=exps, got=got, func=func))
         judge("strftime", rec.get("s"), [T.broken_utc(t, 0)])
@@ -476,6 +496,73 @@ TIMES = [("%H:%M:%S", 3), ("%T", 3), ("%X", 3), ("%H:%M", 2), ("%R", 2), ("%I:%M
 SEPS = [" ", "T", "_", ", ", " at "]
 
 
+P_FIXED = {"%Y", "%y", "%m", "%d", "%H", "%I", "%M", "%S", "%j", "%b", "%h", "%a", "%p", "%T", "%R", "%X", "%F", "%D", "%x", "%r", "%z", "%%"}
+P_SEPS = [" ", " ", "-", ":", "/", "T", ".", ", ", " at ", "|"]
+
+
+def rand_parse_format(rng, year):
+    """a random arrangement of documented strptime conversions that together state a full date (and the leading part of a
+    time of day): -> (format, number of H/M/S fields carried, has %z).  Conversions of fixed width may touch each other."""
+    y2 = 1969 <= year <= 2068
+    atoms = []
+    c = rng.random()
+    if c < 0.5:
+        atoms += [rng.choice(["%Y", "%Y", "%y"] if y2 else ["%Y"]), rng.choice(["%m", "%m", "%b", "%B", "%h"]), rng.choice(["%d", "%d", "%e"])]
+    elif c < 0.75:
+        atoms += [rng.choice(["%Y", "%Y", "%y"] if y2 else ["%Y"]), "%j"]
+    else:
+        atoms += [rng.choice(["%F", "%D", "%x"] if y2 else ["%F"])]
+    if rng.random() < 0.25:
+        atoms.append(rng.choice(["%a", "%A"]))
+    c = rng.random()
+    if c < 0.1:
+        carried = 0
+    elif c < 0.55:
+        carried = rng.randint(1, 3)
+        if rng.random() < 0.3:
+            atoms += ["%I", "%p"] + ["%M", "%S"][:carried - 1]
+        else:
+            atoms += ["%H", "%M", "%S"][:carried]
+    else:
+        a, carried = rng.choice([("%T", 3), ("%R", 2), ("%X", 3), ("%r", 3)])
+        atoms.append(a)
+    has_z = rng.random() < 0.2
+    if has_z:
+        atoms.append("%z")
+    elif rng.random() < 0.08:
+        atoms.append("%Z")
+    if rng.random() < 0.08:
+        atoms.append("%%")
+    rng.shuffle(atoms)
+    fmt = ""
+    for i, a in enumerate(atoms):
+        fmt += a
+        if i < len(atoms) - 1:
+            glue = a in P_FIXED and atoms[i + 1] not in ("%Z", "%A", "%B") and rng.random() < 0.3
+            seps = P_SEPS
+            if a in ("%S", "%T", "%X"):
+                seps = [x for x in seps if x != "."]                 # "%S." + digits is the documented fractional-seconds input
+            if a in ("%a", "%A", "%b", "%B", "%h", "%p", "%Z", "%r"):
+                seps = [x for x in seps if not x[0].isalpha()]       # how a name ends when a letter follows is not documented
+            fmt += "" if glue else rng.choice(seps)
+    return fmt, carried, has_z
+
+
+def _p_ctx(fmt, txt):
+    """input classes of two strptime defects: '%%' followed by literal text; %A / %B as the last conversion at the very end of the
+    format with a name longer than Monday / January"""
+    toks = T.tokenize(fmt)
+    out = {"pct": "none", "tail": "none"}
+    for i, (k, t_) in enumerate(toks):
+        if k == "code" and t_ == "%" and i + 1 < len(toks) and toks[i + 1][0] == "lit":
+            out["pct"] = "then-literal"
+    if toks and toks[-1] == ("code", "A") and re.search(r"(Tuesday|Wednesday|Thursday|Saturday)$", txt):
+        out["tail"] = "long-name"
+    if toks and toks[-1] == ("code", "B") and re.search(r"(February|September|November|December)$", txt):
+        out["tail"] = "long-name"
+    return out
+
+
 def build_parse_row(rng, t, ns, local=False):
     """-> dict(fmt, ffmt|None, txt, exp_sec, exp_ns) for a GMT strptime; None if this instant cannot carry
     the chosen format.  exp = the instant the text denotes."""
@@ -486,6 +573,11 @@ def build_parse_row(rng, t, ns, local=False):
         return None
     if r < 0.04:
         fmt, carried, frac = "%c", 3, 0
+    elif r < 0.4:
+        fmt, carried, has_z = rand_parse_format(rng, b0.Y)
+        frac = 0
+        if has_z:
+            off = rng.choice([0, -14400, 7200, 19800, 20700, -12600, 50400, -43200, 60 * rng.randint(-1439, 1439)])
     else:
         use_y = rng.random() < 0.2 and 1969 <= b0.Y <= 2068
         fmt = rng.choice(DATE_y if use_y else DATE_Y)
@@ -540,7 +632,7 @@ def build_parse_row(rng, t, ns, local=False):
 def _e_ctx(fmt, txt):
     """where a space-padded single-digit %e sits in the format (the parser has position-dependent trouble with it)"""
     toks = T.tokenize(fmt)
-    codes = [i for i, (k, t) in enumerate(toks) if k == "code"]
+    codes = [i for i, (k, t) in enumerate(toks) if k == "code" and t != "%"]          # %% is literal text, not a field
     for i in codes:
         if toks[i][1] == "e":
             if i > 0 and toks[i - 1][0] == "lit" and toks[i - 1][1].endswith("_"):
@@ -579,6 +671,7 @@ def parse_case(case):
             bump(res, "pcode:%" + c)
         x = {"range": _range_class(m["exp"]), "form": "frac" if m["frac"] else "plain", "frac8": m["frac"] == 8,
              "e_ctx": _e_ctx(m["fmt"], m["txt"])}
+        x.update(_p_ctx(m["fmt"], m["txt"]))
         exp = Fraction(m["exp"]) + Fraction(m["exp_ns"], G)
         _cmp_num(res, "parse", "strptime", rec.get("p"), exp, argv, row, extra=x, tol=_ftol(exp) if m["exp_ns"] else 0)
         if T.in_i64ns(m["exp"]):
@@ -587,6 +680,7 @@ def parse_case(case):
             res["skipped"] += 1            # not representable as int64 nanoseconds: inherent
         if m["ffmt"] is not None:
             xr = dict(x, range=_range_class(m["rt"]), e_ctx=_e_ctx(m["fmt"], m["rt_txt"]))
+            xr.update(_p_ctx(m["fmt"], m["rt_txt"]))
             _cmp_num(res, "parse", "strptime(strftime)", rec.get("rt"), Fraction(m["rt"]), argv, row, extra=xr)
             if "ns" in row and T.in_i64ns(m["rt"]):
                 f = m["frac"]
@@ -651,6 +745,8 @@ def local_rows(rng, zone, n_random, per_tr, n_far, fcodes):
     """rows for one zone; each row carries its own expectations' inputs"""
     rows = []
     tr = [x for x in T.transitions(zone) if T.LOCAL_MIN + 5 * 86400 <= x[0] <= T.LOCAL_MAX - 5 * 86400]
+    if per_tr < len(TR_OFFS):           # quick tier: all of the table, every third year of the footer era + its last year
+        tr = [x for x in tr if x[0] <= T.TABLE_MAX or x[0] > T.naive_to_sec(9000, 1, 1) or T.broken_utc(x[0]).Y % 3 == 0]
     inst = []
     for (Tt, ob, oa, _, _) in tr:
         offs = TR_OFFS if per_tr >= len(TR_OFFS) else rng.sample(TR_OFFS, per_tr)
@@ -660,18 +756,29 @@ def local_rows(rng, zone, n_random, per_tr, n_far, fcodes):
             lo, hi = (Tt + ob, Tt + oa) if oa > ob else (Tt + oa, Tt + ob)     # wall-clock interval (as if UTC) of the gap/overlap
             for w in {lo - 1, lo, lo + 1, (lo + hi) // 2, hi - 1, hi} if per_tr >= 6 else {lo, (lo + hi) // 2, hi - 1}:
                 inst.append((Tt, 0, w))
+    y1901, y2038, y1800 = T.TABLE_MIN + 5 * 86400, T.TABLE_MAX - 5 * 86400, T.naive_to_sec(1800, 1, 1)
     for _ in range(n_random):
-        inst.append((rng.randint(T.LOCAL_MIN + 5 * 86400, T.LOCAL_MAX - 5 * 86400), rand_frac(rng), None))
+        inst.append((rng.randint(y1901, y2038), rand_frac(rng), None))
     for t in (-2, -1, 0, 1, 951782400, 951868800, 1078012800, -2147483648, 2147483647):
         inst.append((t, 0, None))
+    # outside the 1901..2037 table: local mean time before it (odd-second offsets), the POSIX footer rule after it
     for _ in range(n_far):
-        inst.append((rng.randint(T.LOCAL_MAX + 86400, 9223372035 - 86400), rand_frac(rng), "far"))
+        c = rng.random()
+        if c < 0.3:
+            t = rng.randint(y1800, y1901)
+        elif c < 0.45:
+            t = rng.randint(T.LOCAL_MIN, y1800)
+        elif c < 0.8:
+            t = rng.randint(y2038, 9223372035 - 86400)
+        else:
+            t = rng.randint(9223372035, T.LOCAL_MAX)
+        inst.append((t, rand_frac(rng), None))
     for (t, ns, wall) in inst:
         b = T.broken_local(t, ns, zone)
-        row = {"i": len(rows), "z": zone, "t": t, "ns": t * G + ns, "n": rng.randrange(10),
+        row = {"i": len(rows), "z": zone, "t": t, "ns": t * G + ns if T.in_i64ns(t) else None, "n": rng.randrange(10),
                "fmt": rng.choice(LOCAL_FMTS) if rng.random() < 0.6 else rand_format(rng, fcodes),
                "gtxt": T.iso_gmt(T.broken_utc(t))}
-        meta = {"t": t, "ns": ns, "far": wall == "far", "wall": None}
+        meta = {"t": t, "ns": ns, "wall": None, "has_ns": T.in_i64ns(t)}
         if isinstance(wall, int):
             naive = _sec_to_naive(wall)
             meta["wall"] = naive
@@ -696,6 +803,20 @@ def local_rows(rng, zone, n_random, per_tr, n_far, fcodes):
     return rows
 
 
+def _wrapped_text(got, exp_sec):
+    """got = a date-time text; True if it is exp_sec moved by a non-zero multiple of 2^64 ns (give or take a zone offset)"""
+    m = re.fullmatch(r"(\d{4})-(\d\d)-(\d\d)[ T](\d\d):(\d\d):(\d\d)Z?", got if isinstance(got, str) else "")
+    if not m:
+        return False
+    try:
+        g = T.naive_to_sec(*map(int, m.groups()))
+    except ValueError:
+        return False
+    d = g - exp_sec
+    k = round(d * G / 2 ** 64)
+    return k != 0 and abs(d - k * 2 ** 64 / G) <= 26 * 3600 + 1       # two zone offsets differ by at most 26 h
+
+
 def judge_local(res, mon, argv, row, rec, meta, env, sel):
     """compare one output record of a LOCAL_* program with the model; zone = row['z']"""
     zone = row["z"]
@@ -709,31 +830,37 @@ def judge_local(res, mon, argv, row, rec, meta, env, sel):
     txt("sec2localtime/0", rec.get("l0"), T.iso_gmt(b0, 0, " ", ""))
     txt("sec2localtime/n", rec.get("ln"), T.iso_gmt(b0, n, " ", ""))
     txt("sec2localdate", rec.get("ld"), T.ymd_text(b0))
-    txt("nsec2localtime/0", rec.get("m0"), T.iso_gmt(b, 0, " ", ""))
-    txt("nsec2localtime/n", rec.get("mn"), T.iso_gmt(b, n, " ", ""))
-    txt("nsec2localdate", rec.get("md"), T.ymd_text(b))
+    has_ns = meta["has_ns"]
+    if has_ns:
+        txt("nsec2localtime/0", rec.get("m0"), T.iso_gmt(b, 0, " ", ""))
+        txt("nsec2localtime/n", rec.get("mn"), T.iso_gmt(b, n, " ", ""))
+        txt("nsec2localdate", rec.get("md"), T.ymd_text(b))
+    else:
+        res["skipped"] += 1            # not representable as int64 nanoseconds: inherent
+    bump(res, "era:" + ("lmt-before-1901" if t < T.TABLE_MIN else "table-1901-2037" if t <= T.TABLE_MAX else "footer-after-2037"))
     fmt = row["fmt"]
     for func, key, bb in (("strftime_local", "sf", b0), ("strfntime_local", "sn", b)):
+        if key == "sn" and not has_ns:
+            continue
         exp = T.strftime(fmt, bb)
         got = rec.get(key)
         bump(res, "checks")
         bump(res, "f:" + func)
         if got != exp:
-            for cul, nxt, lit, prev in T.culprits(fmt, bb, got if isinstance(got, str) else ""):
-                add_violation(res, dict(x, kind="format", monitor=mon, func=func, code=cul, next=nxt, lit=lit, prev=prev),
+            culs = T.culprits_x(fmt, bb, got if isinstance(got, str) else "")
+            for cul, nxt, lit, prev, pc_ in culs:
+                add_violation(res, _fsig(x, mon, func, cul, nxt, lit, prev, pc_, len(culs) > 1),
                               f"{func}({t if key == 'sf' else row['ns']}, {fmt!r}, {zone}) = {got!r}, zoneinfo says {exp!r} (wrong conversion: {cul})",
                               _detail(argv, row, env, expected=exp, got=got, func=func))
-    txt("gmt2localtime", rec.get("g2l"), T.iso_gmt(b0, 0, " ", ""))
+    rc = _range_class(t)
+    txt("gmt2localtime", rec.get("g2l"), T.iso_gmt(b0, 0, " ", ""), range=rc, wrap=_wrapped_text(rec.get("g2l"), t + b0.off))
     # GMT functions must not notice the zone
     u = T.broken_utc(t)
     txt("sec2gmt", rec.get("u0"), T.iso_gmt(u), affected_by_tz=True)
     txt("strftime", rec.get("u1"), T.strftime("%Y-%m-%d %H:%M:%S %Z %z %s", u), affected_by_tz=True)
     txt("sec2gmtdate", rec.get("u4"), T.ymd_text(u), affected_by_tz=True)
-    rc = _range_class(t)
     _cmp_num(res, mon, "gmt2sec", rec.get("u2"), Fraction(t), argv, row, env, extra=dict(x, range=rc, affected_by_tz=True))
     _cmp_num(res, mon, "strptime", rec.get("u3"), Fraction(t), argv, row, env, extra=dict(x, range=rc, affected_by_tz=True))
-    if meta["far"]:
-        return
     # wall clock -> instant
     naive = meta["wall"] or b.naive()
     kind, cands = T.local_to_instants(naive, zone)
@@ -743,15 +870,19 @@ def judge_local(res, mon, argv, row, rec, meta, env, sel):
         bump(res, "lkind:" + kind)
         xx = dict(x, lkind=kind)
         ok = _cmp_num(res, mon, "localtime2sec", rec.get("l2s"), [Fraction(c) for c in cands], argv, row, env, extra=dict(xx, range=_range_class(cands[0])))
-        _cmp_num(res, mon, "localtime2nsec", rec.get("l2n"), [Fraction(c * G) for c in cands], argv, row, env, extra=dict(xx, range=_range_class(cands[0])))
-        txt("localtime2gmt", rec.get("l2g"), {T.iso_gmt(T.broken_utc(c)) for c in cands}, lkind=kind)
+        l2n_ok = all(T.in_i64ns(c) for c in cands)
+        if l2n_ok:
+            _cmp_num(res, mon, "localtime2nsec", rec.get("l2n"), [Fraction(c * G) for c in cands], argv, row, env, extra=dict(xx, range=_range_class(cands[0])))
+        l2g_ok = txt("localtime2gmt", rec.get("l2g"), {T.iso_gmt(T.broken_utc(c)) for c in cands}, lkind=kind, range=_range_class(cands[0]),
+                     wrap=_wrapped_text(rec.get("l2g"), cands[0]))
         g = _num(rec.get("l2s"))
         if ok and g is not None and g.denominator == 1:
             if kind in ("gap", "overlap"):
                 bump(res, f"{kind}_choice:" + ("offset-before" if int(g) == cands[0] else "offset-after"))
             gn = _num(rec.get("l2n"))
-            if rec.get("l2g") != T.iso_gmt(T.broken_utc(int(g))) or gn != g * G:
-                add_violation(res, dict(xx, kind="inconsistent", monitor=mon, func="localtime2sec/localtime2gmt/localtime2nsec"),
+            bad = (["localtime2gmt"] if l2g_ok and rec.get("l2g") != T.iso_gmt(T.broken_utc(int(g))) else []) + (["localtime2nsec"] if l2n_ok and gn != g * G else [])
+            if bad:
+                add_violation(res, dict(xx, kind="inconsistent", monitor=mon, func="localtime2sec/localtime2gmt/localtime2nsec", which="+".join(bad)),
                               f"localtime2sec={rec.get('l2s')} localtime2gmt={rec.get('l2g')} localtime2nsec={rec.get('l2n')} disagree for {row['ltxt']!r} in {zone}",
                               _detail(argv, row, env))
     # strptime_local on the model-made text
@@ -762,12 +893,16 @@ def judge_local(res, mon, argv, row, rec, meta, env, sel):
         pc, pk = [T.naive_to_sec(*meta["pnaive"]) - toff], "offset"
     elif "%Z" in pfmt:
         pc, pk = [t], "abbr"
+        offs = T.abbr_offsets(zone, b.abbr)
+        if len(offs) > 1:                # the abbreviation has meant several offsets in this zone: any of them is a correct reading
+            pc, pk = [t] + [t + b.off - o for o in offs if o != b.off], "abbr-ambiguous"
     if pk == "unknown":
         res["skipped"] += 1
         return
     xx = dict(x, lkind=pk, range=_range_class(pc[0]), pfmt=pfmt)
     _cmp_num(res, mon, "strptime_local", rec.get("sp"), [Fraction(c) for c in pc], argv, row, env, extra=xx)
-    _cmp_num(res, mon, "strpntime_local", rec.get("spn"), [Fraction(c * G) for c in pc], argv, row, env, extra=xx)
+    if all(T.in_i64ns(c) for c in pc):
+        _cmp_num(res, mon, "strpntime_local", rec.get("spn"), [Fraction(c * G) for c in pc], argv, row, env, extra=xx)
     if meta["wall"] is None:
         _cmp_num(res, mon, "strptime_local(strftime_local)", rec.get("rt"), [Fraction(c) for c in pc], argv, row, env, extra=xx)
 
@@ -915,13 +1050,18 @@ def dhms_case(case):
             xfrac = Fraction(float(xt))
             exact = False
         row = {"i": len(rows), "n": n, "x": Raw(xt)}
-        if n >= 0:
+        if n > -2 ** 63:
+            # canonical texts handed to the parsers directly; a negative duration is written as "-" + the text of |n|
+            # (the shape the forward functions print and the statement covers: "incl. negatives")
+            sg = "-" if n < 0 else ""
             a6 = "%06d" % (rng.randrange(64) * 15625)
-            row["s1"] = T.canon_dhms(n)
+            row["s1"] = sg + T.canon_dhms(abs(n))
             row["s2"] = T.canon_hms(n)
-            row["s3"] = T.canon_dhms(n)[:-1] + "." + a6 + "s"
+            row["s3"] = sg + T.canon_dhms(abs(n))[:-1] + "." + a6 + "s"
             row["s4"] = T.canon_hms(n) + "." + a6
-            m6 = Fraction(int(a6), 10 ** 6)
+            if n == 0 and rng.random() < 0.5:          # -0.25: the sign lives on a zero whole part
+                row["s3"], row["s4"], sg = "-" + row["s3"], "-" + row["s4"], "-"
+            m6 = Fraction(int(a6), 10 ** 6) * (-1 if sg else 1)
         else:
             m6 = None
         rows.append(row)
@@ -981,32 +1121,56 @@ def dhms_case(case):
             if got != e:
                 viol("fsec2hms", xcls, f"fsec2hms({row['x']}) = {got!r}; expected {e!r}", row, got=got, expected=e)
         else:
-            for key in ("c", "d"):
+            # a float that is not a multiple of 1/64: the fields printed must be those of |x| (floor-based d/h/m/s) with the
+            # six decimals within 1e-6; at 59.9999995+ the carried forms (next whole second, or a seconds field of 60.000000)
+            # are accepted as well - the docs pin no rounding rule
+            ax = abs(xf)
+            w0 = int(ax)
+            fr0 = ax - w0
+            eps = Fraction(1, 10 ** 6) + Fraction(4 * math.ulp(float(ax) or 1.0))
+            for key, func in (("c", "fsec2dhms"), ("d", "fsec2hms")):
                 g = rec.get(key)
+                bump(res, "checks")
                 mm = (T._FDHMS if key == "c" else T._FHMS).match(g) if isinstance(g, str) else None
+                ok = False
                 if mm:
-                    secs = int(mm.group(5 if key == "c" else 4))
-                    if secs >= 60:
-                        bump(res, "observed_seconds_field_60_in_" + ("fsec2dhms" if key == "c" else "fsec2hms"))
+                    if key == "c":
+                        fields = tuple(None if q is None else int(q) for q in mm.groups()[1:5])
+                        frac = Fraction(int(mm.group(6)), 10 ** 6)
+                        alts = [T.expect_dhms(w0), T.expect_dhms(w0 + 1)]
+                    else:
+                        fields = (int(mm.group(2)), int(mm.group(3)), int(mm.group(4)))
+                        frac = Fraction(int(mm.group(5)), 10 ** 6)
+                        alts = [(w0 // 3600, w0 % 3600 // 60, w0 % 60), ((w0 + 1) // 3600, (w0 + 1) % 3600 // 60, (w0 + 1) % 60)]
+                    if fields[-1] >= 60:
+                        bump(res, "observed_seconds_field_60_in_" + func)
+                    carry = fr0 >= 1 - eps
+                    sixty = alts[0][:-1] + (alts[0][-1] + 1,)
+                    ok = (fields == alts[0] and abs(frac - fr0) <= eps) or (carry and frac == 0 and fields in (alts[1], sixty))
+                    neg = mm.group(1) == "-"
+                    if ok and ax > eps and neg != (xf < 0):
+                        ok = False
+                if not ok:
+                    viol(func, xcls, f"{func}({row['x']}) = {g!r}; the fields of |x| are {T.expect_dhms(w0) if key == 'c' else T.canon_hms(w0)} + {float(fr0):.7f}", row, got=g)
         for func, key in (("dhms2fsec(fsec2dhms)", "ic"), ("hms2fsec(fsec2hms)", "id")):
             bump(res, "checks")
             g = _num(rec.get(key))
             if g is None or abs(g - xf) > Fraction(1, 10 ** 6) + Fraction(4 * math.ulp(float(abs(xf)) or 1.0)):
                 viol(func, xcls, f"{func}: {row['x']} -> {rec.get('c' if key == 'ic' else 'd')!r} -> {rec.get(key)!r} (more than 1e-6 away)", row, got=rec.get(key), expected=str(float(xf)))
-        # parse direction on canonical texts (documented shapes, n >= 0)
+        # parse direction on canonical texts (documented shapes; negatives as "-" + text of |n|)
         if "s1" in row:
             bump(res, "checks", 6)
             for func, key, e in (("dhms2sec", "pa", Fraction(n)), ("hms2sec", "pb", Fraction(n))):
                 if _num(rec.get(key)) != e:
                     viol(func, cls, f"{func}({row['s1' if key == 'pa' else 's2']!r}) = {rec.get(key)!r}; expected {n}", row, got=rec.get(key), expected=n)
-            if n < 2 ** 40:
+            if abs(n) < 2 ** 40:
                 for func, key, src in (("dhms2fsec", "pc", "s3"), ("hms2fsec", "pd", "s4")):
                     g = _num(rec.get(key))
                     if g is None or abs(g - (n + m6)) > Fraction(1, 10 ** 6):
                         viol(func, cls, f"{func}({row[src]!r}) = {rec.get(key)!r}; expected {float(n + m6)}", row, got=rec.get(key), expected=str(float(n + m6)))
             got = rec.get("ra")
             p = T.parse_dhms(got) if isinstance(got, str) else None
-            if p is None or p != (False, T.expect_dhms(n)):
+            if p is None or p != (n < 0, T.expect_dhms(n)):
                 viol("sec2dhms(dhms2sec)", cls, f"sec2dhms(dhms2sec({row['s1']!r})) = {got!r}", row, got=got, expected=row["s1"])
             if rec.get("rb") != row["s2"]:
                 viol("sec2hms(hms2sec)", cls, f"sec2hms(hms2sec({row['s2']!r})) = {rec.get('rb')!r}", row, got=rec.get("rb"), expected=row["s2"])
@@ -1140,6 +1304,9 @@ def verb_case(case):
         else:
             sub = ns // (G // scale)                       # whole input units within the second
             vals.append(("int", str(t * scale + sub), t, sub * (G // scale)))
+            if rng.random() < 0.3:                         # the same unit count with a fractional part: a float input
+                k = rng.randint(1, 4)
+                vals.append(("ufloat", "%d.%0*d" % (t * scale + sub, k, rng.randrange(10 ** k)), t, None))
     vals += [("nonnum", v, None, None) for v in NONNUM] + [("exotic", v, None, None) for v in EXOTIC]
     rng.shuffle(vals)
     lines = []
@@ -1199,6 +1366,19 @@ def verb_case(case):
         if cls == "exotic":
             continue
         # calendar
+        if cls == "ufloat":
+            # float count of milli/micro/nanoseconds: the docs do not define the float -> instant conversion, so every instant within
+            # one ulp of (exact value of the double) / scale seconds is accepted, printed with n decimals (floored)
+            exact = Fraction(float(v)) / scale
+            u = Fraction(math.ulp(float(exact)))
+            lo_, hi_ = [((exact + d_) * 10 ** n).__floor__() for d_ in (-u, u)]
+            gi = _parse_iso(got)
+            bump(res, "checks")
+            shape = re.fullmatch(r"-?\d{4,}-\d\d-\d\dT\d\d:\d\d:\d\d" + (r"\.\d{%d}" % n if n else "") + "Z", got or "")
+            if gi is None or not shape or not (lo_ <= gi * 10 ** n <= hi_):
+                viol("calendar", f"{verb} {' '.join(opts)} of the float {v} gives {got!r}; {float(exact)!r} s is {T.iso_gmt(T.broken_utc(*divmod((exact * G).__floor__(), G)), n)}",
+                     i, got=got, sig={"error": "gross", "input": "float"})
+            continue
         if cls == "float":
             cands = [T.broken_utc(s_, f_) for (s_, f_) in T.float_candidates(v)]
         else:
@@ -1238,10 +1418,12 @@ def nonnum_case(case):
     funcs = []
     for f, forms in NONNUM_FORMS.items():
         h = R.mlr(["help", "function", f]).out
-        if "Leaves non-numbers as-is" in h:
-            funcs.append((f, forms))
-        else:
-            res["skipped"] += 1
+        funcs.append((f, forms))           # the list is pinned here; the sentence is what the check rests on
+        bump(res, "checks")
+        if "Leaves non-numbers as-is" not in h:
+            add_violation(res, {"kind": "doc-example", "monitor": "nonnum", "func": f, "call": "help-sentence"},
+                          f"`mlr help function {f}` no longer says 'Leaves non-numbers as-is' (the function is still checked for it)",
+                          {"argv": ["help", "function", f], "stdin": "", "env": {}, "got": h[:600]})
     prog = ""
     cols = []
     for f, forms in funcs:
@@ -1258,7 +1440,7 @@ def nonnum_case(case):
         for col, f, ar, form in cols:
             bump(res, "checks")
             if rec.get(col) != row["v"]:
-                add_violation(res, {"kind": "nonnumeric", "monitor": "nonnum", "func": f"{f}/{ar}"},
+                add_violation(res, {"kind": "nonnumeric", "monitor": "nonnum", "func": f"{f}/{ar}", "got": "(error)" if rec.get(col) == "(error)" else "other"},
                               f"{f}({form.replace('$v', json.dumps(row['v']))}) = {rec.get(col)!r}; `mlr help function {f}` says it leaves non-numbers as-is",
                               _detail(argv, row, None, expected=row["v"], got=rec.get(col)))
             nk.append(_h("nonnum", col, row["v"]))
@@ -1357,6 +1539,337 @@ def doc_case(case):
 
 
 # ==========================================================================================
+# chain: the same laws when 2-3 time verbs of one then-chain work concurrently on a multi-batch stream
+
+CHAIN_LITS = [" ", "-", ":", "/", "T", "Z", ".", ", ", "[", "]", "@", "é", "=", "|", ""]      # none of the C16-F4/F5 contexts
+CHAIN_PFMTS = ["%Y-%m-%dT%H:%M:%SZ", "%d/%m/%Y %H:%M:%S", "%Y%m%d%H%M%S", "%b %d %Y %I:%M:%S %p", "%j %Y %T", "%Y-%m-%d %H:%M:%S"]
+CHAIN_FAMILY = ["strftime", "strfntime", "strftime_local", "strfntime_local", "sec2gmtdate", "sec2localdate", "nsec2gmtdate", "nsec2localdate"]
+CHAIN_OTHER = ["sec2gmt", "nsec2gmt", "sec2localtime", "nsec2localtime", "strptime", "strpntime", "gmt2sec", "rt", "rt_local", "gmt2localtime"]
+CHAIN_VERB_OPTS = [[], ["-1"], ["-3"], ["-6"], ["-9"], ["--millis"], ["--millis", "-3"], ["--micros", "-6"], ["--nanos", "-9"], ["--nanos"]]
+
+
+def _chain_fmt(rng, codes):
+    c = rng.random()
+    if c < 0.55:
+        k = rng.randint(1, 5)
+        s = rng.choice(["", "", "[", "t="])
+        for j in range(k):
+            s += "%" + rng.choice(codes)
+            if j < k - 1:
+                s += rng.choice(CHAIN_LITS)
+        return s + rng.choice(["", "", "Z", "]"])
+    if c < 0.8:
+        return rng.choice(COMPOSITES)
+    return rng.choice(LOCAL_FMTS)
+
+
+def _dq(s):
+    """a DSL string literal"""
+    return '"' + s.replace("\\", "\\\\").replace('"', '\\"') + '"'
+
+
+def chain_spec(rng, nverbs, codes):
+    """-> list of verbs; verb = {'kind', 'argv', 'cells': [cell]}, cell = dict(col, f, ...parameters).  The first and the last
+    verb always go through the strftime family, each verb with formats / zones of its own."""
+    zones = [z for z in T.ZONES if z != "UTC"]
+    verbs = []
+    for k in range(nverbs):
+        edge = k in (0, nverbs - 1)
+        c = rng.random()
+        if c < (0.7 if edge else 0.45):
+            kind = "put"
+        elif c < (0.8 if edge else 0.6):
+            kind = "filter"
+        elif c < (1.0 if edge else 0.75):
+            kind = "sec2gmtdate"
+        else:
+            kind = "sec2gmt"
+        v = {"kind": kind, "cells": []}
+        if kind == "put":
+            fs = [rng.choice(CHAIN_FAMILY[:4])] + [rng.choice(CHAIN_FAMILY + CHAIN_OTHER) if rng.random() < 0.6 else rng.choice(CHAIN_FAMILY[:4])
+                                                  for _ in range(rng.randint(1, 3))]
+            rng.shuffle(fs)
+            stmts = []
+            for j, f in enumerate(fs):
+                cell = {"col": f"o{k}_{j}", "f": f, "z": rng.choice(zones), "n": rng.randrange(10), "fmt": _chain_fmt(rng, codes),
+                        "p": rng.randrange(len(CHAIN_PFMTS))}
+                col, z, n, fq, p = "$" + cell["col"], _dq(cell["z"]), cell["n"], _dq(cell["fmt"]), cell["p"]
+                pq = _dq(CHAIN_PFMTS[p])
+                e = {"strftime": f"strftime($t, {fq})", "strfntime": f"strfntime($ns, {fq})",
+                     "strftime_local": f"strftime_local($t, {fq}, {z})", "strfntime_local": f"strfntime_local($ns, {fq}, {z})",
+                     "sec2gmtdate": "sec2gmtdate($t)", "sec2localdate": f"sec2localdate($t, {z})",
+                     "nsec2gmtdate": "nsec2gmtdate($ns)", "nsec2localdate": f"nsec2localdate($ns, {z})",
+                     "sec2gmt": f"sec2gmt($t, {n})", "nsec2gmt": f"nsec2gmt($ns, {n})",
+                     "sec2localtime": f"sec2localtime($t, {n}, {z})", "nsec2localtime": f"nsec2localtime($ns, {n}, {z})",
+                     "strptime": f"strptime($p{p}, {pq})", "strpntime": f"strpntime($p{p}, {pq})", "gmt2sec": "gmt2sec($p0)",
+                     "rt": f"strptime(strftime($t, {pq}), {pq})",
+                     "rt_local": f'strptime_local(strftime_local($t, "%Y-%m-%d %H:%M:%S", {z}), "%Y-%m-%d %H:%M:%S", {z})',
+                     "gmt2localtime": f"gmt2localtime($p0, {z})"}[f]
+                if "$ns" in e:
+                    stmts.append(f"if (is_present($ns)) {{ {col} = {e}; }}")
+                else:
+                    stmts.append(f"{col} = {e};")
+                v["cells"].append(cell)
+            v["argv"] = ["put", "\n".join(stmts)]
+        elif kind == "filter":
+            fmt = "%" + rng.choice([c_ for c_ in codes if c_ not in ("n", "t", "%")]) + rng.choice(CHAIN_LITS) + "%" + rng.choice("YmdHMSj")
+            v["cells"].append({"col": None, "f": "filter", "fmt": fmt})
+            v["argv"] = ["filter", f'strlen(strftime($t, {_dq(fmt)})) >= 3 && sec2gmtdate($t) =~ "^[0-9]{{4}}-[0-9]{{2}}-[0-9]{{2}}$"']
+        elif kind == "sec2gmtdate":
+            v["cells"].append({"col": f"v{k}", "f": "verb:sec2gmtdate"})
+            v["argv"] = ["sec2gmtdate", f"v{k},nosuch"]
+        else:
+            opts = rng.choice(CHAIN_VERB_OPTS)
+            v["cells"].append({"col": f"v{k}", "f": "verb:sec2gmt", "opts": opts})
+            v["argv"] = ["sec2gmt"] + opts + [f"v{k}"]
+        verbs.append(v)
+    return verbs
+
+
+def _fmt_judge(res, mon, func, fmt, got, b, argv_detail, x, label):
+    """one strftime-family result against the model, failure named by the conversion that is wrong"""
+    exp = T.strftime(fmt, b)
+    bump(res, "checks")
+    bump(res, "f:" + func)
+    if got == exp:
+        return True
+    culs = T.culprits_x(fmt, b, got if isinstance(got, str) else "")
+    if len(culs) >= 3 and len(culs) == len(T.tokenize(fmt)):
+        culs = [("every-token", "end", "", "", "")]          # nothing of the requested format is recognisable in the result
+    for cul, nxt, lit, prev, pc_ in culs:
+        add_violation(res, _fsig(x, mon, func, cul, nxt, lit, prev, pc_, len(culs) > 1),
+                      f"{label} = {got!r}, expected {exp!r} (wrong conversion: {cul})", argv_detail(expected=exp, got=got, func=func))
+    return False
+
+
+def chain_case(case):
+    rng = random.Random(case["seed"])
+    binary = case["binary"]
+    res = case_result(_h("chain", case["seed"], binary))
+    verbs = chain_spec(rng, case["nverbs"], case["codes"])
+    batch = case["batch"]
+    nrec = batch * case["nbatches"] + rng.randrange(1, batch)
+    # instants: the boundary pool, the int64-ns range (every function applies), years 1..9999 (second-based functions only)
+    inst = instant_rows(rng, 0, lo=-9223372036, hi=9223372035, with_boundary=True)
+    rng.shuffle(inst)
+    inst = inst[:nrec // 4]
+    while len(inst) < nrec:
+        c = rng.random()
+        if c < 0.5:
+            t = rng.randint(T.TABLE_MIN + 5 * 86400, T.TABLE_MAX - 5 * 86400)
+        elif c < 0.85:
+            t = rng.randint(-9223372036, 9223372035)
+        else:
+            t = rng.randint(T.MIN_SEC + 3 * 86400, T.MAX_SEC - 3 * 86400)
+        inst.append((t, rand_frac(rng)))
+    rng.shuffle(inst)
+    rows = []
+    for i, (t, ns) in enumerate(inst):
+        b = T.broken_utc(t, 0)
+        row = {"i": i, "t": t}
+        if T.in_i64ns(t):
+            row["ns"] = t * G + ns
+        for p, pf in enumerate(CHAIN_PFMTS):
+            row[f"p{p}"] = T.strftime(pf, b)
+        for k, v in enumerate(verbs):
+            if v["kind"] == "sec2gmtdate":
+                row[f"v{k}"] = t
+            elif v["kind"] == "sec2gmt":
+                opts = v["cells"][0]["opts"]
+                unit = next((o for o in opts if o.startswith("--")), "")
+                scale = {"": 1, "--millis": 1000, "--micros": 10 ** 6, "--nanos": G}[unit]
+                if scale > 1 and not T.in_i64ns(t):
+                    row[f"v{k}"] = "n/a"
+                else:
+                    row[f"v{k}"] = t * scale + (ns // (G // scale) if scale > 1 else 0)
+        rows.append(row)
+    argv = ["--records-per-batch", str(batch), "--ijson", "--ojson"]
+    for k, v in enumerate(verbs):
+        argv += (["then"] if k else []) + v["argv"]
+    stdin = _stdin(rows)
+    env = {"MLR_VERIF_SCHED": case["sched"]} if case.get("sched") else {}
+    race = binary == "mlr-race"
+    r = R.mlr(argv, stdin=stdin, env=env, binary=binary, cpu_s=120 if race else 20, watchdog=240 if race else 60)
+    bump(res, "processes")
+    bump(res, "chain_runs:" + binary)
+    res["evals"] = len(rows)
+    res["sample"] = {"monitor": "chain", "argv": argv, "records": nrec, "batch": batch, "binary": binary}
+    full = {"n": 0}
+
+    def det(row=None, **kw):
+        d = {"argv": argv, "env": env, "binary": binary, "records": nrec, "records_per_batch": batch}
+        if full["n"] < 4:              # the whole stream is needed to replay (the law is about a multi-batch stream); keep a few copies only
+            full["n"] += 1
+            d["stdin"] = stdin
+        else:
+            d["stdin_note"] = "same stream as the first violations of this case (regenerate from the case seed)"
+            d["case"] = {k_: v_ for k_, v_ in case.items() if k_ != "codes"}
+        if row is not None:
+            d["row"] = _jrow(row)
+        d.update(kw)
+        return d
+    if r.verdict == "slow":
+        res["inconc"] += 1
+        return res
+    if r.verdict in ("cpu", "output-cap", "deadlock"):
+        add_violation(res, {"kind": "hang", "monitor": "chain", "verdict": r.verdict},
+                      f"chain of {[v['kind'] for v in verbs]} over {nrec} records: {r.verdict}", det(got=r.brief(800)))
+        return res
+    if race:
+        nrep = 0
+        for rep in r.race_reports or []:
+            for blk in rep.split("WARNING: DATA RACE")[1:]:
+                if "github.com/johnkerl/miller" not in blk:
+                    continue
+                nrep += 1
+                top = []
+                for part in re.split(r"\n\s*\n", blk):
+                    m = re.search(r"^\s+(github\.com/johnkerl/miller/v6/\S+?)\(", part, re.M)
+                    if m and ("Read at" in part or "Write at" in part or "Previous" in part):
+                        top.append(m.group(1).replace("github.com/johnkerl/miller/v6/pkg/", ""))
+                pair = "|".join(sorted(set(top[:2])))
+                if nrep <= 20:
+                    add_violation(res, {"kind": "data-race", "monitor": "chain", "pair": pair},
+                                  f"data race between two time verbs of one chain ({pair}): their results depend on the interleaving",
+                                  det(report=blk[:5000]))
+        bump(res, "race_reports", nrep)
+    recs = None
+    if r.verdict == "exited" and r.rc == 0:
+        try:
+            recs = json.loads(_ERR_RX.sub(r'\1"(error)"\2', r.out), parse_float=str, parse_int=str) if r.out.strip() else []
+        except ValueError:
+            recs = None
+    if recs is None:
+        add_violation(res, {"kind": "crash", "monitor": "chain"},
+                      f"chain: mlr died or printed unparseable JSON (rc={r.rc} signal={r.signal}): {r.err[:200]!r}", det(got=r.brief(800)))
+        return res
+    by_i = {}
+    for rec in recs:
+        by_i.setdefault(str(rec.get("i")), []).append(rec)
+    nk = []
+    nviol0 = len(res["viol"])
+    for row in rows:
+        if len(res["viol"]) - nviol0 > 400:
+            break
+        got = by_i.get(str(row["i"]), [])
+        t = row["t"]
+        ns = inst[row["i"]][1]
+        if len(got) != 1:
+            add_violation(res, {"kind": "record-count", "monitor": "chain", "n": min(len(got), 2)},
+                          f"chain: input record i={row['i']} (t={t}) appears {len(got)} times in the output; every verb of the chain is one-to-one",
+                          det(row))
+            continue
+        rec = got[0]
+        has_ns = "ns" in row
+        loc = T.LOCAL_MIN + 5 * 86400 <= t <= T.LOCAL_MAX - 5 * 86400
+        bu0, bu = T.broken_utc(t, 0), T.broken_utc(t, ns)
+        x = {"range": _range_class(t), "chained": True}
+        for k, v in enumerate(verbs):
+            for cell in v["cells"]:
+                f, col = cell["f"], cell["col"]
+                if col is None:
+                    continue
+                g = rec.get(col)
+                nsf = f in ("strfntime", "strfntime_local", "nsec2gmtdate", "nsec2localdate", "nsec2gmt", "nsec2localtime")
+                if nsf and not has_ns:
+                    bump(res, "checks")
+                    if g is not None:
+                        add_violation(res, dict(x, kind="value", monitor="chain", func=f), f"chain: {col} assigned although $ns is absent: {g!r}", det(row, got=g))
+                    continue
+                localf = "local" in f
+                if localf and not loc:
+                    res["skipped"] += 1
+                    continue
+                z = cell.get("z")
+                xz = dict(x, zone=z) if localf else x
+
+                def dd(**kw):
+                    return det(row, verb=k, column=col, **kw)
+                if f in ("strftime", "strfntime", "strftime_local", "strfntime_local"):
+                    if localf:
+                        bb = T.broken_local(t, ns if nsf else 0, z)
+                    else:
+                        bb = bu if nsf else bu0
+                    arg = row["ns"] if nsf else t
+                    _fmt_judge(res, "chain", f, cell["fmt"], g, bb, dd, xz, f"verb {k + 1} of the chain: {f}({arg}, {cell['fmt']!r}{', ' + z if localf else ''})")
+                    continue
+                if f in ("strptime", "gmt2sec", "rt"):
+                    _cmp_num(res, "chain", f, g, Fraction(t), argv, row, env, extra=dict(x, form="plain", frac8=False, e_ctx="none"))
+                    continue
+                if f == "strpntime" and not has_ns:
+                    res["skipped"] += 1            # not representable as int64 nanoseconds: inherent
+                    continue
+                if f == "strpntime":
+                    _cmp_num(res, "chain", f, g, Fraction(t * G), argv, row, env, extra=dict(x, form="plain", frac8=False, e_ctx="none"))
+                    continue
+                if f == "rt_local":
+                    kind, cands = T.local_to_instants(T.broken_local(t, 0, z).naive(), z)
+                    if kind == "unknown":
+                        res["skipped"] += 1
+                    else:
+                        _cmp_num(res, "chain", f, g, [Fraction(c_) for c_ in cands], argv, row, env, extra=dict(xz, lkind=kind))
+                    continue
+                n = cell.get("n", 0)
+                if f == "sec2gmtdate":
+                    e = T.ymd_text(bu0)
+                elif f == "nsec2gmtdate":
+                    e = T.ymd_text(bu)
+                elif f == "sec2localdate":
+                    e = T.ymd_text(T.broken_local(t, 0, z))
+                elif f == "nsec2localdate":
+                    e = T.ymd_text(T.broken_local(t, ns, z))
+                elif f == "sec2gmt":
+                    e = T.iso_gmt(bu0, n)
+                elif f == "nsec2gmt":
+                    e = T.iso_gmt(bu, n)
+                elif f in ("sec2localtime", "gmt2localtime"):
+                    e = T.iso_gmt(T.broken_local(t, 0, z), n if f == "sec2localtime" else 0, " ", "")
+                elif f == "nsec2localtime":
+                    e = T.iso_gmt(T.broken_local(t, ns, z), n, " ", "")
+                elif f == "verb:sec2gmtdate":
+                    e = T.ymd_text(bu0)
+                elif f == "verb:sec2gmt":
+                    opts = cell["opts"]
+                    if row[col] == "n/a":
+                        e = "n/a"
+                    else:
+                        unit = next((o for o in opts if o.startswith("--")), "")
+                        scale = {"": 1, "--millis": 1000, "--micros": 10 ** 6, "--nanos": G}[unit]
+                        nd = next((int(o[1:]) for o in opts if re.fullmatch(r"-[1-9]", o)), 0)
+                        sub = (ns // (G // scale)) * (G // scale) if scale > 1 else 0
+                        e = T.iso_gmt(T.broken_utc(t, sub), nd)
+                else:
+                    raise ValueError(f)
+                if f == "gmt2localtime":
+                    xz = dict(xz, wrap=_wrapped_text(g, t + T.broken_local(t, 0, z).off))
+                _cmp_text(res, "chain", f, g, e, argv, row, env, extra=xz,
+                          what=f"verb {k + 1} of the chain ({v['kind']}): {f} of t={t} gives {g!r}, the calendar says {e!r}")
+        if "nosuch" in rec:
+            add_violation(res, {"kind": "verb", "monitor": "chain", "class": "bystander"}, f"chain: a field 'nosuch' was created: {rec}", det(row))
+        if nontrivial_instant(t, ns):
+            nk.append(_h("chain", case["seed"], t, ns))
+    # violations made through _cmp_text/_cmp_num carry a one-row stdin: give them the stream as well
+    nfull = 0
+    for vv in res["viol"][nviol0:]:
+        d = vv["detail"]
+        if "records_per_batch" not in d:
+            d["row"] = d.pop("stdin", None)
+            d.update({"argv": argv, "env": env, "binary": binary, "records": nrec, "records_per_batch": batch})
+            if nfull < 3:
+                nfull += 1
+                d["stdin"] = stdin
+            else:
+                d["case"] = {k_: v_ for k_, v_ in case.items() if k_ != "codes"}
+    bump(res, "chain_batches", -(-nrec // batch))
+    for v in verbs:
+        bump(res, "chain_verb:" + v["kind"])
+    fam = sum(1 for v in verbs if v["kind"] != "sec2gmt" and (v["kind"] != "put" or any(c_["f"] in CHAIN_FAMILY for c_ in v["cells"])))
+    res["nontrivial_keys"] = nk if (fam >= 2 and nrec > 2 * batch) else []
+    res["nontrivial"] = bool(res["nontrivial_keys"])
+    return res
+
+
+# ==========================================================================================
 
 def run(chk):
     only = chk.only
@@ -1393,7 +1906,7 @@ def run(chk):
         for z in T.ZONES:
             for k in range(chk.pick(1, 6)):
                 cases.append({"seed": f"{S}/local/{z}/{k}", "zone": z, "n": chk.pick(250, 2500), "per_tr": chk.pick(4, 11),
-                              "far": chk.pick(40, 300), "codes": fcodes})
+                              "far": chk.pick(120, 600), "codes": fcodes})
         chk.pmap(local_case, cases, label="local")
     if want("sel"):
         for z in T.ZONES:
@@ -1425,6 +1938,16 @@ def run(chk):
         chk.pmap(verb_case, cases, label="verb")
     if want("nonnum"):
         chk.pmap(nonnum_case, [{"seed": f"{S}/nonnum"}], label="nonnum")
+    if want("chain"):
+        rng = chk.rng("chain")
+        cases = []
+        for i in range(chk.pick(12, 80)):
+            cases.append({"seed": f"{S}/chain/{i}", "binary": "mlr-verif", "nverbs": 2 + i % 2, "batch": [500, 50, 200, 100][i % 4],
+                          "nbatches": 3 + i % 3, "codes": fcodes, "sched": f"{rng.randint(1, 10 ** 6)}:300" if i % 3 == 2 else None})
+        for i in range(chk.pick(5, 30)):
+            cases.append({"seed": f"{S}/chainr/{i}", "binary": "mlr-race", "nverbs": 2 + i % 2, "batch": [50, 100, 200][i % 3],
+                          "nbatches": 3 + i % 2, "codes": fcodes, "sched": None})
+        chk.pmap(chain_case, cases, label="chain")
     if want("doc"):
         chk.pmap(doc_case, [{"func": f} for f in TIME_FUNCS + ["__md__"]], label="doc")
 
@@ -1449,7 +1972,10 @@ def run(chk):
     chk.rule = ("rows = instants x formats x zones fed in batches to one mlr put process each: boundary pool (day boundaries around Feb 28/29, Mar 1, "
                 "year ends of years 1,4,100,400,1600,1700,1900,1970,2000,2024,2100,9999; epoch +-2; int32/int64-ns edges; years-1..9999 limits) + "
                 "seeded uniform instants in years 1..9999 with ns fractions {0,1,499999999,500000000,999999999,k/512,ms,random}; every transition "
-                "of 12 IANA zones 1901-2037 +-{0,1,1799,1800,3599,3600}s plus wall-clock texts inside every gap/overlap; every documented %-code "
+                "of 12 IANA zones in the TZif table (1800s LMT changes .. 2037), footer-rule transitions 2038-2100 (quick: every third year), 2400 and 9990, "
+                "+-{0,1,1799,1800,3599,3600}s plus wall-clock texts inside every gap/overlap, plus per zone instants in years 1..1900 (LMT, odd-second "
+                "offsets) and 2038..9999; strptime formats = fixed date x time products and random arrangements of the documented conversions "
+                "(fixed-width ones touching); chains of 2-3 time verbs over 3-5 batches of 50..500 records (mlr-verif and mlr-race); every documented %-code "
                 "alone, composites, random 2-6 code concatenations with literals; dhms integers incl. negatives and int64 limits; DATEDIF date pool^2 "
                 "+ random pairs x 6 units; verb option sets x values. Non-trivial = instant within 2 days of a leap day, year end, zone transition "
                 "or the epoch, or negative, or with non-zero fraction (dhms: negative or fractional; datediff: month-end/leap/year-end day involved). "
@@ -1460,7 +1986,15 @@ def run(chk):
         "float epoch seconds: any instant within 2 ns of the exact value of the double is accepted (docs do not define the float->instant conversion; "
         "exact ns behaviour is checked through the integer-nanosecond functions); fractional digits are truncated, as the doc example "
         "strftime(123456.789,\"%1S\") = 36.7 and sec2gmt(-1234567890.123) = ...00:28:29Z (floor) fix",
-        "local functions are checked for instants 1901-12-15..2037-12-31 (explicit TZif transitions); later instants only for formatting on a thin sample",
+        "local functions are checked over years 1..9999 against zoneinfo (first/LMT type before the TZif table, POSIX footer rule after it); gap/overlap "
+        "wall-clock texts are generated from the table transitions and the footer transitions of 2038-2100, 2400 and 9990; elsewhere a wall-clock text "
+        "that is not shown by exactly one instant is declined",
+        "%Z in strptime_local: an abbreviation that has carried several offsets in the zone (Pacific/Apia LMT, Europe/Dublin IST) may be read with any of them",
+        "random strptime formats: no '.' directly after %S/%T/%X (that is the documented fractional-seconds input), no literal letter directly after a "
+        "name conversion (%a %A %b %B %h %p %Z %r: how a name ends before a letter is not documented), variable-width conversions (%A %B %e) do not touch the next one",
+        "chain monitor: no ENV[\"TZ\"] assignment inside chained verbs (process-wide state; which verb sees it first is not defined) - zones are given as arguments; "
+        "a race report counts only if a frame of github.com/johnkerl/miller is on one of its stacks",
+        "an integral instant obtained without fractional input must be printed as an integer (help examples gmt2sec(..) = 981173106, strptime(..) = 14400)",
         "wall-clock texts inside a DST gap: either the offset before or after the gap is accepted; inside an overlap: either occurrence "
         "(Miller's docs are silent, Go documents 'one of the two'); localtime2sec/localtime2gmt/localtime2nsec must agree with each other",
         "strptime: only the codes in the strptime table of reference-dsl-time.md; %s is not in that table, so strptime(x,\"%s\") = (error) is "
@@ -1470,11 +2004,12 @@ def run(chk):
         "%Z in strptime only 'UTC' or a three-letter alphabetic abbreviation of the zone in force ('three-letter ... only if you're in them')",
         "%z of an offset with odd seconds (pre-1920 local mean times) is the offset truncated to minutes (+HHMM)",
         "dhms: zero padding of inner d/h/m/s fields is not pinned by any documented example, outputs are compared by numeric field values, presence of "
-        "units and sign; fsec* exact only for k/64 fractions, otherwise the 1e-6 inverse law; a seconds field of 60.000000 (fsec2hms(59.9999999)) is "
-        "counted in 'observed' but not judged (the statement only demands the inverse law, which holds)",
+        "units and sign; fsec* exact for k/64 fractions, otherwise the printed fields must be the floor-based d/h/m/s of |x| with the six decimals "
+        "within 1e-6, or - at x within 1e-6 below a whole second - the carried form (next second, or a seconds field of 60.000000, counted in 'observed'); "
+        "negative durations are fed to the parsers as '-' + the text of |n| (the shape the forward functions print)",
         "datediff: 'yd'/'md' are declined when the shifted start date does not exist (Feb 29 anniversary in a non-leap year, day 29-31 in a shorter month): "
         "the help does not determine those (spreadsheets famously return negative 'md' there)",
         "verb == function is asserted only without --millis/--micros/--nanos (the help states the equivalence for the plain form); unit flags are "
-        "checked against the calendar with exact integer arithmetic",
+        "checked against the calendar with exact integer arithmetic; a float count of units may land anywhere within one ulp of value/scale seconds",
         "numeric-looking values other than plain decimal ints/floats (hex, binary, 1e9, ...) are compared verb-vs-function only (their inference is C06's subject)",
     ]
